@@ -157,7 +157,7 @@ func init() {
 	nondet := func(tag string, w int) intrinsic {
 		return func(in *Interp, caller *frame, fn *ssa.Function, args []Value) Value {
 			t := in.freshVar(tag, w)
-			in.draws = append(in.draws, Draw{Kind: tag, W: w, T: t})
+			in.addDraw(Draw{Kind: tag, W: w, T: t})
 			return t
 		}
 	}
@@ -173,20 +173,20 @@ func init() {
 		rtPkg + ".IntRange": func(in *Interp, caller *frame, fn *ssa.Function, args []Value) Value {
 			lo, hi := args[0].(*Term), args[1].(*Term)
 			t := in.freshVar("int", 64)
-			in.draws = append(in.draws, Draw{Kind: "int", W: 64, T: t})
+			in.addDraw(Draw{Kind: "int", W: 64, T: t})
 			in.assume(in.tt.And(in.tt.Cmp(OpBvSle, lo, t), in.tt.Cmp(OpBvSle, t, hi)))
 			return t
 		},
 		rtPkg + ".Bytes": func(in *Interp, caller *frame, fn *ssa.Function, args []Value) Value {
 			n := in.concInt(args[0])
 			s, ts := in.symBytesSlice(n, "b")
-			in.draws = append(in.draws, Draw{Kind: "bytes", Ts: ts})
+			in.addDraw(Draw{Kind: "bytes", Ts: ts})
 			return s
 		},
 		rtPkg + ".String": func(in *Interp, caller *frame, fn *ssa.Function, args []Value) Value {
 			n := in.concInt(args[0])
 			_, ts := in.symBytesSlice(n, "s")
-			in.draws = append(in.draws, Draw{Kind: "bytes", Ts: ts})
+			in.addDraw(Draw{Kind: "bytes", Ts: ts})
 			if n == 0 {
 				return Str{}
 			}
@@ -199,7 +199,7 @@ func init() {
 			var all []Str
 			for i := 0; i < n; i++ {
 				_, ts := in.symBytesSlice(l, "a")
-				in.draws = append(in.draws, Draw{Kind: "bytes", Ts: ts})
+				in.addDraw(Draw{Kind: "bytes", Ts: ts})
 				in.natoms++
 				s := Str{sym: ts, atom: in.natoms}
 				arr[i] = s
@@ -303,6 +303,22 @@ func init() {
 		},
 		rtPkg + ".IteInt": func(in *Interp, caller *frame, fn *ssa.Function, args []Value) Value {
 			return in.tt.Ite(args[0].(*Term), args[1].(*Term), args[2].(*Term))
+		},
+		rtPkg + ".StubBool": func(in *Interp, caller *frame, fn *ssa.Function, args []Value) Value {
+			t := in.freshVar("bool", 0)
+			in.draws = append(in.draws, Draw{Kind: "bool", T: t, Stub: true})
+			return t
+		},
+		rtPkg + ".StubU64": func(in *Interp, caller *frame, fn *ssa.Function, args []Value) Value {
+			t := in.freshVar("u64", 64)
+			in.draws = append(in.draws, Draw{Kind: "u64", W: 64, T: t, Stub: true})
+			return t
+		},
+		rtPkg + ".StubBytes": func(in *Interp, caller *frame, fn *ssa.Function, args []Value) Value {
+			n := in.concInt(args[0])
+			s, ts := in.symBytesSlice(n, "b")
+			in.draws = append(in.draws, Draw{Kind: "bytes", Ts: ts, Stub: true})
+			return s
 		},
 		rtPkg + ".Steps": func(in *Interp, caller *frame, fn *ssa.Function, args []Value) Value {
 			return in.tt.Const(64, uint64(in.steps))
